@@ -11,7 +11,7 @@ def gen_cases(ctx, per_n):
     cases = []
     for n in range(2, 21):
         for k in range(per_n):
-            x = ctx.rng.randrange(0, P) if k else 1
+            x = ctx.rng.randrange(0, P) if k > 1 else (1 if k else -1)   # -1: nil interface argument
             ab = []
             for i in range(n):
                 ab += [ctx.rng.randrange(2, 1000), ctx.rng.randrange(1, 1000)]
@@ -22,9 +22,12 @@ def gen_cases(ctx, per_n):
 def expect(case):
     v = list(map(int, case.split()))
     n, x = v[0], v[1]
+    if x == -1:
+        x = 0
     for i in range(n):
         x = (v[2 + 2 * i] * x + v[3 + 2 * i]) % P
-    return "%d | %s" % (x, " ".join(str(i + 1) for i in range(n)))
+    one = "%d | %s" % (x, " ".join(str(i + 1) for i in range(n)))
+    return one + " || " + one
 
 
 def run(ctx):
